@@ -113,7 +113,13 @@ inductive PC where
   deriving DecidableEq, Repr
 
 inductive Proto where
-  | current | repaired
+  /-- `/repo/pyiga/compile.py` as pinned: every file written in place in MODDIR -/
+  | current
+  /-- fixes/C20-atomic-publish.patch: private `mkdtemp` directory + one atomic rename -/
+  | repaired
+  /-- a tempting wrong repair (kept as a negative example): build in a directory with a
+  *fixed* name shared by all processes, then publish by rename -/
+  | sharedTmp
   deriving DecidableEq, Repr
 
 structure Proc where
@@ -146,7 +152,7 @@ def readSrc (d : Dir) (p : Path) : Option Src :=
 def pstep (proto : Proto) (n : Nat) (d : Dir) (nt : Nat) (src : Src) (crash : Bool) :
     PC → Dir × Nat × PC
   | .imp => (d, nt, importStep d n crash
-      (match proto with | .current => .pyx0 none | .repaired => .mk))
+      (match proto with | .current => .pyx0 none | .repaired => .mk | .sharedTmp => .pyx0 (some 0)))
   | .mk => (d, nt + 1, .pyx0 (some nt))
   | .pyx0 w => (d.set (fileAt n w .pyx) .part, nt, .pyx1 w)
   | .pyx1 w => (d.set (fileAt n w .pyx) (.complete src), nt, .cy0 w)
